@@ -948,15 +948,46 @@ def c25_info(R):
             construct=f"comparison_info[{op!r}] = {got.get(op)}",
         )
     hc = tree.func(BAL, "Balancer._handle_comparison")
-    t = ast.unparse(hc)
-    R.check("is_lt, is_equal, is_unsigned = self.comparison_info[truism.op]" in t, m, hc, "_handle_comparison unpacks (is_lt, is_equal, is_unsigned)",
-            "_handle_comparison unpacks comparison_info in a different order", construct="_handle_comparison unpack")
+    F = util.Frags(hc)
+    # the unpacking fixes which local holds which column of the table; the uses below have to agree with it
+    R.need(F.has("is_lt, is_equal, is_unsigned = self.comparison_info[truism.op]"), "_handle_comparison no longer unpacks comparison_info[truism.op] into three locals")
+    uses = {
+        "unsigned column selects the unsigned maximum": "int_max = 2 ** size - 1 if is_unsigned else 2 ** (size - 1) - 1",
+        "equality column decides strictness (upper)": "bound_max = right_max if is_equal else right_max - 1 if is_lt else right_max + 1",
+        "equality column decides strictness (lower)": "bound_min = right_min if is_equal else right_min - 1 if is_lt else right_min + 1",
+    }
+    for what, frag in uses.items():
+        R.check(
+            F.has(frag),
+            m,
+            hc,
+            f"_handle_comparison: {what}",
+            f"_handle_comparison does not use the columns of comparison_info in the order it unpacks them ({what}: `{frag}` not found with the unpacked names)",
+            construct=f"_handle_comparison unpack/use: {what}",
+        )
+    signed_args = [util.kw(c, "signed") for c in _calls(hc) if isinstance(c.func, ast.Attribute) and c.func.attr in ("_min", "_max", "_range")]
+    sgn_locals = {st.targets[0].id for st in walk_no_nested(hc) if isinstance(st, ast.Assign) and isinstance(st.targets[0], ast.Name) and F.canon(st.value) == "not is_unsigned"}
+    R.check(
+        bool(signed_args) and all(k is not None and (F.canon(k) == "not is_unsigned" or (isinstance(k, ast.Name) and k.id in sgn_locals)) for k in signed_args),
+        m,
+        hc,
+        "_handle_comparison queries signed ranges exactly for signed comparisons",
+        f"_handle_comparison passes signed={[F.canon(k) if k is not None else None for k in signed_args]} to the range queries; it must be `not <unsigned column>`",
+        construct="_handle_comparison signedness of range queries",
+    )
     ga = tree.func(BAL, "Balancer._get_assumptions")
+    from ..opfacts import Aliases, op_set_of_fact
+
+    al = Aliases(ga)
     arms = {}
-    for st in ga.body:
-        if isinstance(st, ast.If) and isinstance(st.test, ast.Compare) and isinstance(st.test.comparators[0], ast.Tuple):
-            ops = tuple(sorted(e.value for e in st.test.comparators[0].elts))
-            arms[ops] = ast.unparse(st.body[0].value)
+    for r in (x for x in walk_no_nested(ga) if isinstance(x, ast.Return)):
+        ops = None
+        for t, pol in guards.guards_of(r):
+            f = op_set_of_fact(t, pol, al)
+            if f is not None and pol:
+                ops = f[1] if ops is None else ops & f[1]
+        if ops:
+            arms[tuple(sorted(ops))] = ast.unparse(r.value)
     want = {
         ("ULE", "ULT"): ("t.args[0] >= 0", None),
         ("UGE", "UGT"): ("t.args[0] <= 2 ** len(t.args[0]) - 1", None),
@@ -987,9 +1018,11 @@ def c25_bounds(R):
     tree = R.tree
     m = tree.mod(BAL)
     hc = tree.func(BAL, "Balancer._handle_comparison")
+    F = util.Frags(hc)
+    R.need(F.has("is_lt, is_equal, is_unsigned = self.comparison_info[truism.op]"), "_handle_comparison no longer unpacks comparison_info[truism.op] into three locals")
     for c in _calls(hc):
         if isinstance(c.func, ast.Attribute) and c.func.attr in ("_add_upper_bound", "_add_lower_bound"):
-            facts = [(ast.unparse(t), pol) for t, pol in guards.guards_of(c)]
+            facts = [(F.canon(t), pol) for t, pol in guards.guards_of(c)]
             want = ("is_lt", c.func.attr == "_add_upper_bound")
             R.check(
                 want in facts,
@@ -1001,13 +1034,20 @@ def c25_bounds(R):
             )
             R.check(ast.unparse(c.args[0]) == "truism.args[0]", m, c, "the bound is recorded for the left-hand side",
                     f"the bound is recorded for `{norm(c.args[0])}`")
-    t = ast.unparse(hc)
-    R.check("current_max = min(int_max, left_max, bound_max)" in t and "current_min = max(int_min, left_min, bound_min)" in t, m, hc,
+    F.has("left_min = Balancer._min(truism.args[0], signed=not is_unsigned)")
+    F.has("left_max = Balancer._max(truism.args[0], signed=not is_unsigned)")
+    F.has("right_min = Balancer._min(truism.args[1], signed=not is_unsigned)")
+    F.has("right_max = Balancer._max(truism.args[1], signed=not is_unsigned)")
+    F.has("int_max = 2 ** size - 1 if is_unsigned else 2 ** (size - 1) - 1")
+    F.has("int_min = -2 ** (size - 1)")
+    F.has("bound_max = right_max if is_equal else right_max - 1 if is_lt else right_max + 1")
+    F.has("bound_min = right_min if is_equal else right_min - 1 if is_lt else right_min + 1")
+    R.check(F.has("current_max = min(int_max, left_max, bound_max)") and F.has("current_min = max(int_min, left_min, bound_min)"), m, hc,
             "upper bound = min of candidates, lower bound = max of candidates", "_handle_comparison combines its candidate bounds differently",
             construct="_handle_comparison candidates")
     R.check(
-        "bound_max = right_max if is_equal else right_max - 1 if is_lt else right_max + 1" in t
-        and "bound_min = right_min if is_equal else right_min - 1 if is_lt else right_min + 1" in t,
+        F.has("bound_max = right_max if is_equal else right_max - 1 if is_lt else right_max + 1")
+        and F.has("bound_min = right_min if is_equal else right_min - 1 if is_lt else right_min + 1"),
         m,
         hc,
         "strict comparisons move the bound by one in the right direction",
@@ -1016,9 +1056,11 @@ def c25_bounds(R):
     )
     for name, fold in (("_add_lower_bound", "max"), ("_add_upper_bound", "min")):
         fn = tree.func(BAL, f"Balancer.{name}")
-        tt = ast.unparse(fn)
+        FF_ = util.Frags(fn)
+        tbl = "_lower_bounds" if "lower" in name else "_upper_bounds"
+        FF_.has(f"old_b = self.{tbl}[o.hash()]")
         R.check(
-            f"b = {fold}(b, old_b)" in tt or f"b = {fold}(old_b, b)" in tt,
+            FF_.has(f"b = {fold}(b, old_b)") or FF_.has(f"b = {fold}(old_b, b)"),
             m,
             fn,
             f"{name} keeps the {fold} of old and new",
@@ -1026,9 +1068,10 @@ def c25_bounds(R):
             construct=f"{name} fold",
         )
     ri = tree.func(BAL, "Balancer._replacements_iter")
-    tt = ast.unparse(ri)
+    FR = util.Frags(ri)
     R.check(
-        "ast.intersection(bound_si)" in tt and "self._lower_bounds.get(k, min_int)" in tt and "self._upper_bounds.get(k, max_int)" in tt,
+        FR.has("max_int = (1 << len(ast)) - 1") and FR.has("min_int = 0")
+        and FR.has("self._lower_bounds.get(k, min_int)") and FR.has("self._upper_bounds.get(k, max_int)") and FR.has("ast.intersection(bound_si)"),
         m,
         ri,
         "replacement = expression intersected with [lower, upper], defaults 0 / all-ones",
@@ -1036,8 +1079,8 @@ def c25_bounds(R):
         construct="_replacements_iter",
     )
     he = tree.func(BAL, "Balancer._handle_eq")
-    tt = ast.unparse(he)
-    R.check("lhs.intersection(rhs)" in tt and "mn, mx = Balancer._range(rhs)" in tt, m, he, "_handle_eq bounds by the range of the other side",
+    FE_ = util.Frags(he)
+    R.check(FE_.has("lhs, rhs = truism.args") and FE_.has("lhs.intersection(rhs)") and FE_.has("mn, mx = Balancer._range(rhs)"), m, he, "_handle_eq bounds by the range of the other side",
             "_handle_eq changed shape", construct="_handle_eq")
 
 
@@ -1056,17 +1099,17 @@ def c25_unpack(R):
     arms = {}
     for st in un.body:
         if isinstance(st, ast.If):
-            arms[ast.unparse(st.test)] = ast.unparse(st.body[0].value)
+            arms[ast.unparse(st.test)] = st.body[0].value
     R.check(
-        arms.get("c.args[0].op == 'And'") == "Balancer._unpack_truisms(claripy.Or(*[claripy.Not(a) for a in c.args[0].args]))",
+        arms.get("c.args[0].op == 'And'") is not None and util.alpha_eq(arms["c.args[0].op == 'And'"], "Balancer._unpack_truisms(claripy.Or(*[claripy.Not(a) for a in c.args[0].args]))", un),
         m,
         un,
         "Not(And(..)) -> Or of negations",
-        f"Not(And) is unpacked as `{arms.get(chr(99) + '.args[0].op == ' + repr('And'))}`",
+        f"Not(And) is unpacked as `{norm(arms[chr(99) + '.args[0].op == ' + repr('And')]) if arms.get(chr(99) + '.args[0].op == ' + repr('And')) is not None else None}`",
         construct="_unpack_truisms_not And",
     )
     R.check(
-        arms.get("c.args[0].op == 'Or'") == "Balancer._unpack_truisms(claripy.And(*[claripy.Not(a) for a in c.args[0].args]))",
+        arms.get("c.args[0].op == 'Or'") is not None and util.alpha_eq(arms["c.args[0].op == 'Or'"], "Balancer._unpack_truisms(claripy.And(*[claripy.Not(a) for a in c.args[0].args]))", un),
         m,
         un,
         "Not(Or(..)) -> And of negations",
@@ -1074,9 +1117,9 @@ def c25_unpack(R):
         construct="_unpack_truisms_not Or",
     )
     uo = tree.func(BAL, "Balancer._unpack_truisms_or")
-    t = ast.unparse(uo)
+    FO = util.Frags(uo)
     R.check(
-        "vals = [claripy.backends.vsa.is_false(v) for v in c.args]" in t and "if vals.count(False) == 1:" in t and "c.args[vals.index(False)]" in t,
+        FO.has("vals = [claripy.backends.vsa.is_false(v) for v in c.args]") and FO.has("vals.count(False) == 1") and FO.has("c.args[vals.index(False)]"),
         m,
         uo,
         "an Or is unpacked only into its single not-definitely-false disjunct",
@@ -1084,11 +1127,11 @@ def c25_unpack(R):
         construct="_unpack_truisms_or",
     )
     ua = tree.func(BAL, "Balancer._unpack_truisms_and")
-    R.check("for a in c.args" in ast.unparse(ua) and "set.union" in ast.unparse(ua), m, ua, "And -> union over every conjunct",
+    R.check(util.has_frag(ua, "set.union(*[Balancer._unpack_truisms(a) for a in c.args])", ua), m, ua, "And -> union over every conjunct",
             "_unpack_truisms_and no longer unions over every conjunct", construct="_unpack_truisms_and")
     rc = tree.func(BAL, "Balancer._reverse_comparison")
-    t = ast.unparse(rc)
-    R.check("new_op = opposites.get(a.op, None)" in t and "op(*a.args[::-1])" in t, m, rc, "reversal = opposite op on swapped operands",
+    FC = util.Frags(rc)
+    R.check(FC.has("new_op = opposites.get(a.op, None)") and FC.has("op = getattr(BV, new_op)") and FC.has("op(*a.args[::-1])"), m, rc, "reversal = opposite op on swapped operands",
             "_reverse_comparison no longer applies opposites[op] to the swapped operands", construct="_reverse_comparison")
     doit = tree.func(BAL, "Balancer._doit")
     R.check("claripy.excavate_ite(c)" in ast.unparse(doit), m, doit, "constraints are ITE-excavated first", "_doit no longer excavates ITEs",
@@ -1107,27 +1150,32 @@ def c25_unsat(R):
     tree = R.tree
     m = tree.mod(BAL)
     n = 0
-    for q, fn in m.functions.items():
+    must = re.compile(r"claripy\.backends\.vsa\.(is_false|is_true)\(")  # definite when it holds
+    cannot = re.compile(r"claripy\.backends\.vsa\.(has_true|has_false)\(")  # definite when it does not hold
+    rng = re.compile(r"Balancer\._(min|max|range)\(")  # a comparison of computed range ends
+
+    def definite(t, pol):
+        return bool((pol and must.search(t)) or (not pol and cannot.search(t) and not must.search(t)) or rng.search(t))
+
+    for q, fn0 in m.functions.items():
+        # locals are resolved to what they were computed from, so the test reads the same whatever they are called
+        fn = fn0
+        for _ in range(4):
+            fn = util.inline_aliases(fn, lambda v: True)
         for r in (x for x in walk_no_nested(fn) if isinstance(x, ast.Raise)):
             if "ClaripyBalancerUnsatError" not in ast.unparse(r):
                 continue
             n += 1
             facts = [(ast.unparse(t), pol) for t, pol in guards.guards_of(r)]
-            pos = [t for t, pol in facts if pol]
-            ok = (
-                any("vsa.is_false(" in t for t in pos)
-                or any(t == "all(vals)" for t in pos)
-                or any("bound_max < int_min" in t or "bound_min > int_max" in t for t in pos)
-                or any(t == "can_true or can_false" and not pol for t, pol in facts)
-                or (("can_true", False) in facts and ("can_false", False) in facts)
-            )
+            ok = any(definite(t, pol) for t, pol in facts)
             R.check(
                 ok,
                 m,
                 r,
                 f"{q}: unsat only under a definite test",
-                f"{q} reports the constraint unsatisfiable under {facts}: that requires a definite is_false / "
-                f"empty-range fact",
+                f"{q} reports the constraint unsatisfiable under {[(t[:80], p) for t, p in facts]}: that requires a definite "
+                f"is_false / has_true / empty-range fact from the VSA backend",
+                construct=f"{q}: raise ClaripyBalancerUnsatError",
             )
     R.need(n >= 4, f"only {n} raises of ClaripyBalancerUnsatError found")
     init = tree.func(BAL, "Balancer.__init__")
@@ -1367,13 +1415,13 @@ _BALANCE_ARMS = {
     "_balance_signext": (set(), (("truism.args[1]", "other_side"), ("truism.args[0]", "left_side")), "sext(x) OP c => x OP low(c) needs c to be a sign extension too"),
     "_balance_extract": (
         {"UGE", "UGT", "__ne__"},
-        (("inner", "left_msb", "left_lsb"),),
+        (("inner", "left_msb", "left_lsb", "truism.args[0].args"),),
         "x[h:0] OP c => x OP zext(c) holds for every x only for >=, > and != (x >= x[h:0]); otherwise the dropped high bits must be 0",
     ),
-    "_balance_concat": (set(), (("left_msb", "truism.args[0]"), ("right_msb", "truism.args[1]")), "(a .. b) OP c => b OP low(c) needs a == 0 and the high bits of c == 0"),
+    "_balance_concat": (set(), (("left_msb", "truism.args[0].args"), ("right_msb", "truism.args[1]")), "(a .. b) OP c => b OP low(c) needs a == 0 and the high bits of c == 0"),
     "_balance_lshift": (
         set(),
-        (("expr", "lhs.args[0]"),),
+        (("expr", "lhs.args[0]", "truism.args[0].args[0]"),),
         "(x << k) OP c => x OP (c >> k) needs the k high bits of x to be 0 (they are shifted out), besides the low bits of c",
     ),
 }
@@ -1409,7 +1457,7 @@ def _value_text(node):
                 return ast.Name(id="_WIDTH_", ctx=ast.Load())
             return self.generic_visit(n)
 
-    return ast.unparse(ast.fix_missing_locations(Strip().visit(copy.deepcopy(node))))
+    return ast.unparse(ast.fix_missing_locations(Strip().visit(util.clone(node))))
 
 
 def _vsa_fact_subjects(fn):
@@ -1454,6 +1502,10 @@ def c25_valid(R):
         for st in walk_no_nested(fn):
             if isinstance(st, ast.Assign) and len(st.targets) == 1 and isinstance(st.targets[0], ast.Name):
                 assigns.setdefault(st.targets[0].id, []).append(st.value)
+            elif isinstance(st, ast.Assign) and len(st.targets) == 1 and isinstance(st.targets[0], (ast.Tuple, ast.List)):
+                for e in st.targets[0].elts:
+                    if isinstance(e, ast.Name):
+                        assigns.setdefault(e.id, []).append(st.value)  # `a, b = X.args`: each name comes out of X.args
         rebuilt = [
             r
             for r in walk_no_nested(fn)
